@@ -148,6 +148,7 @@ var c38ErrTags = []struct{ prefix, tag string }{
 	{"Malform packet error", "malform"},
 	{"unsupported flag", "flag"},
 	{"Stmt Unknown FieldType", "ftype"},
+	{"Stmt invalid float parameter value", "floatval"},
 	{"invalid date packet length", "datelen"},
 	{"invalid datetime packet length", "dtlen"},
 	{"invalid time packet length", "timelen"},
@@ -315,6 +316,8 @@ func execC38(in core.Sexp) string {
 		return "((" + strings.Join(rs, " ") + ") " + end + ")"
 	case "tcp", "tcp-batch":
 		return c38ProcChild(in)
+	case "own":
+		return execC38Own(in)
 	}
 	return "bad"
 }
@@ -325,6 +328,8 @@ func trivialC38(in core.Sexp, out string) bool {
 		return out == "panic"
 	case "hs":
 		return !strings.Contains(out, "(info ")
+	case "own":
+		return !strings.Contains(out, "(sql ") && !strings.Contains(out, "(done check ") && !strings.Contains(out, "(done hs (info")
 	case "sess":
 		for _, w := range []string{" ok", "(ok", " q", "(q", " fl", "(fl", "(prep", " eof", "(eof"} {
 			if strings.Contains(out, w) {
